@@ -272,6 +272,10 @@ func cloneOwnership(c *Ctx, rule string, only map[string]bool) {
 						return true
 					})
 				}
+				// ... or a helper of the package that clones a list element by element
+				if call, ok := v.(*ast.CallExpr); ok && len(call.Args) == 1 && nospace(call.Args[0]) == "expr."+f.Name() && c.elementwiseCloners()[callName(call)] {
+					okLoop = true
+				}
 				if !okLoop {
 					bad = append(bad, "children "+f.Name()+" are not cloned element-wise")
 				}
@@ -420,61 +424,11 @@ func c09Entrypoints(c *Ctx, g *load.G) {
 	r := c.R
 	ap := g.Pkg("ast")
 	fd := load.FuncDecl(ap, "grammarOptimizer", "optimize")
-	// removal site: expr.Rules = append(expr.Rules[:i], expr.Rules[i+1:]...)
-	var gs []string
-	found := false
-	ast.Inspect(fd.Body, func(n ast.Node) bool {
-		if as, ok := n.(*ast.AssignStmt); ok && strings.HasSuffix(nospace(as.Lhs[0]), ".Rules") && strings.Contains(nospace(as.Rhs[0]), ".Rules[:i]") {
-			found = true
-			gs = guardsOf(fd.Body, as.Pos())
-		}
-		return true
-	})
-	okGuard := found && len(gs) >= 1 && (gs[len(gs)-1] == "!used&&!protected" || gs[len(gs)-1] == "!protected&&!used")
-	// used / protected definitions
-	defs := map[string]string{}
-	ast.Inspect(fd.Body, func(n ast.Node) bool {
-		if as, ok := n.(*ast.AssignStmt); ok && len(as.Lhs) == 2 && len(as.Rhs) == 1 {
-			defs[nospace(as.Lhs[1])] = nospace(as.Rhs[0])
-		}
-		return true
-	})
-	okDefs := defs["used"] == "r.ruleUsedByRules[rule.Name.Val]" && defs["protected"] == "r.protectedRules[rule.Name.Val]"
-	r.Check(okGuard && okDefs, "C09-d", "G.ast.optimize:rule-removal-guard", "", g.Where(fd.Pos()), "removal under !used && !protected (membership in ruleUsedByRules / protectedRules)", fmt.Sprintf("guards %v, used := %s, protected := %s", gs, defs["used"], defs["protected"]))
+	okGuard, guardDetail, okCleanN, cleanDetailN := optimizerRemovalGuard(c, g)
+	_, _ = okCleanN, cleanDetailN
+	r.Check(okGuard, "C09-d", "G.ast.optimize:rule-removal-guard", "", g.Where(fd.Pos()), "removal under !used && !protected (membership in ruleUsedByRules / protectedRules)", guardDetail)
 	// Optimize builds the protected set
-	of := load.FuncDecl(ap, "", "Optimize")
-	ok1, ok2, ok3 := false, false, false
-	if of != nil {
-		ast.Inspect(of.Body, func(n ast.Node) bool {
-			switch x := n.(type) {
-			case *ast.AssignStmt:
-				t := nospace(x.Lhs[0]) + "=" + nospace(x.Rhs[0])
-				if t == "entrypoints=alternateEntrypoints" {
-					ok1 = true
-				}
-				if t == "entrypoints=append(entrypoints,g.Rules[0].Name.Val)" {
-					ok2 = true
-				}
-			case *ast.CallExpr:
-				if callName(x) == "newGrammarOptimizer" && len(x.Args) == 1 && nospace(x.Args[0]) == "entrypoints" {
-					ok3 = true
-				}
-			}
-			return true
-		})
-	}
-	ngo := load.FuncDecl(ap, "", "newGrammarOptimizer")
-	ok4 := false
-	if ngo != nil {
-		ast.Inspect(ngo.Body, func(n ast.Node) bool {
-			if rs, ok := n.(*ast.RangeStmt); ok && nospace(rs.X) == ngo.Type.Params.List[0].Names[0].Name && len(rs.Body.List) == 1 {
-				if as, ok := rs.Body.List[0].(*ast.AssignStmt); ok && nospace(as.Lhs[0]) == "pr["+nospace(rs.Value)+"]" {
-					ok4 = true
-				}
-			}
-			return true
-		})
-	}
+	ok1, ok2, ok3, ok4 := optimizerProtectedSet(c, g)
 	r.Check(ok1 && ok2 && ok3 && ok4, "C09-d", "G.ast.Optimize:protected-set", "", "ast/ast_optimize.go", "alternate entrypoints plus the first rule, all entered into protectedRules", fmt.Sprintf("alt=%t first=%t passed=%t all-entered=%t", ok1, ok2, ok3, ok4))
 	mf := load.FuncDecl(g.Pkg(""), "", "main")
 	okMain := false
@@ -581,21 +535,8 @@ func c09Effects(c *Ctx, g *load.G) {
 		r.Check(len(bad) == 0, "C09-f", fmt.Sprintf("G.ast.optimize:merge-case#%d:effect", i+1), "", g.Where(cc.Pos()), "members moved completely, survivor at index i-1, combined set", strings.Join(bad, "; "))
 	}
 	// (3) removal iff combined
-	okRemove := false
-	ast.Inspect(fd.Body, func(n ast.Node) bool {
-		if is, ok := n.(*ast.IfStmt); ok && nospace(is.Cond) == "combined" {
-			t := ""
-			ast.Inspect(is.Body, func(m ast.Node) bool {
-				if as, ok := m.(*ast.AssignStmt); ok {
-					t += nospace(as.Lhs[0]) + "=" + nospace(as.Rhs[0]) + ";"
-				}
-				return true
-			})
-			okRemove = strings.Contains(t, "expr.Alternatives=append(expr.Alternatives[:i],expr.Alternatives[i+1:]...);") && strings.Contains(t, "expr.Alternatives=expr.Alternatives[:i];")
-		}
-		return true
-	})
-	r.Check(okRemove, "C09-f", "G.ast.optimize:absorbed-alternative-removed", "", g.Where(fd.Pos()), "element i is removed exactly when a merge was applied", "the removal of the absorbed alternative is not `if combined { drop element i }`")
+	okRemove, whyRemove := optimizerAbsorbedRemoved(c, g)
+	r.Check(okRemove, "C09-f", "G.ast.optimize:absorbed-alternative-removed", "", g.Where(fd.Pos()), "element i is removed exactly when a merge was applied", whyRemove)
 	optimizerInlining(c, g, "C09-f")
 	// (6) duplicate removal keeps every distinct member
 	cf := load.FuncDecl(ap, "grammarOptimizer", "cleanupCharClassMatcher")
@@ -624,6 +565,7 @@ func c09Effects(c *Ctx, g *load.G) {
 		// what is appended is the member itself: the loop element for chars and classes, the pair (Ranges[i], Ranges[i+1])
 		// for ranges; the duplicate key of a pair is built from the same two runes; the regenerated text renders the same pair
 		var badApp []string
+		inl := inlineLocals(cf, nil)
 		ast.Inspect(cf.Body, func(n ast.Node) bool {
 			switch x := n.(type) {
 			case *ast.RangeStmt:
@@ -645,7 +587,7 @@ func c09Effects(c *Ctx, g *load.G) {
 				for _, ce := range callsIn(x.Body) {
 					switch {
 					case callName(ce) == "append" && len(ce.Args) >= 2 && kept[nospace(ce.Args[0])]:
-						if len(ce.Args) != 3 || nospace(ce.Args[1]) != "chr.Ranges[i]" || nospace(ce.Args[2]) != "chr.Ranges[i+1]" {
+						if len(ce.Args) != 3 || inl(ce.Args[1]) != "chr.Ranges[i]" || inl(ce.Args[2]) != "chr.Ranges[i+1]" {
 							badApp = append(badApp, g.Where(ce.Pos())+": the kept pair is "+nospace(ce)+", expected (chr.Ranges[i], chr.Ranges[i+1])")
 						}
 					}
@@ -684,99 +626,60 @@ func optimizerInlining(c *Ctx, g *load.G, rule string) {
 		return
 	}
 	// (4) inlining guard
-	or := load.FuncDecl(ap, "grammarOptimizer", "optimizeRule")
-	okInline := false
-	why := "cloneExpr call not found"
-	if or != nil {
-		for _, ce := range callsIn(or.Body) {
-			if callName(ce) == "cloneExpr" {
-				gs := guardsOf(or.Body, ce.Pos())
-				conj := map[string]bool{}
-				for _, gd := range gs {
-					for _, x := range strings.Split(gd, "&&") {
-						conj[x] = true
-					}
-				}
-				okInline = conj["defined"] && conj["!usesRules"] && conj["ok"]
-				why = "guards [" + strings.Join(gs, ";") + "]"
-			}
-		}
-		// definitions of the two facts
-		defs := map[string]string{}
-		ast.Inspect(or.Body, func(n ast.Node) bool {
-			if as, ok := n.(*ast.AssignStmt); ok && len(as.Lhs) == 2 && len(as.Rhs) == 1 {
-				defs[nospace(as.Lhs[1])] = nospace(as.Rhs[0])
-			}
-			return true
-		})
-		if !(defs["usesRules"] == "r.ruleUsesRules[ruleRef.Name.Val]" && defs["defined"] == "r.rules[ruleRef.Name.Val]") {
-			okInline = false
-			why += fmt.Sprintf("; usesRules := %s, defined := %s", defs["usesRules"], defs["defined"])
-		}
-	}
+	okInline, why := optimizerInlineGuard(c, g)
 	r.Check(okInline, rule, "G.ast.optimizeRule:inline-only-defined-leaf-rules", "", "ast/ast_optimize.go", "a reference is replaced by a clone only if the rule is defined and references no rule", why+": inlining a rule that references rules can recurse without end or drop the bookkeeping of its references")
 	// (5) bookkeeping
-	setf := load.FuncDecl(ap, "", "set")
-	okSet := false
-	if setf != nil {
-		t := ""
-		ast.Inspect(setf.Body, func(n ast.Node) bool {
-			if as, ok := n.(*ast.AssignStmt); ok {
-				t += nospace(as.Lhs[0]) + "=" + nospace(as.Rhs[0]) + "[" + strings.Join(guardsOf(setf.Body, as.Pos()), ";") + "];"
-			}
-			return true
-		})
-		okSet = strings.Contains(t, "m[src][dst]=struct{}{}[];")
-	}
-	initf := load.FuncDecl(ap, "grammarOptimizer", "init")
-	okInit := false
-	initWhy := ""
-	if initf != nil {
-		var cs []string
-		for _, ce := range callsIn(initf.Body) {
-			if callName(ce) == "set" {
-				var as []string
-				for _, a := range ce.Args {
-					as = append(as, nospace(a))
-				}
-				cs = append(cs, strings.Join(as, ","))
-			}
-		}
-		sort.Strings(cs)
-		okInit = strings.Join(cs, "|") == "r.ruleUsedByRules,expr.Name.Val,r.rule|r.ruleUsesRules,r.rule,expr.Name.Val"
-		// ... on every path of the RuleRefExpr case, for every reference (a self reference included: a rule that
-		// references only itself must not look like a leaf, or it is inlined into its own clone without end)
-		if si := typeSwitchOn(initf, firstParam(initf)); si.HasSwitch && si.Cases["RuleRefExpr"] != nil {
-			for _, p := range enumPaths(&ast.BlockStmt{List: si.Cases["RuleRefExpr"].Body}) {
-				n := 0
-				for _, e := range p {
-					switch {
-					case e.Kind == "call" && strings.HasPrefix(e.Text, "set("):
-						n++
-					case e.Kind == "+" || e.Kind == "-" || e.Kind == "branch" || e.Kind == "return" && n < 2:
-						okInit = false
-						initWhy = "a reference is recorded only under [" + strings.Join(p.guards(), " ") + "] / before a " + e.Kind
-					}
-				}
-				if n != 2 {
-					okInit = false
-					if initWhy == "" {
-						initWhy = "a path of the RuleRefExpr case records " + fmt.Sprint(n) + " of the 2 directions"
-					}
-				}
-			}
-		} else {
-			okInit = false
-		}
-	}
-	var cleanup []string
-	ast.Inspect(fd.Body, func(n ast.Node) bool {
-		if ce, ok := n.(*ast.CallExpr); ok && callName(ce) == "delete" && strings.Contains(nospace(ce.Args[0]), "ruleUsedByRules") {
-			cleanup = append(cleanup, nospace(ce)+"["+strings.Join(guardsOf(fd.Body, ce.Pos()), ";")+"]")
-		}
-		return true
-	})
-	okClean := len(cleanup) == 2 && strings.HasSuffix(cleanup[0], "kk==rule.Name.Val]") && strings.HasSuffix(cleanup[1], "kk==rule.Name.Val;len(r.ruleUsedByRules[k])==0]")
+	okInit, initWhy := optimizerRecordsReferences(c, g)
+	okSet := okInit
+	_, _, okClean, cleanDetail := optimizerRemovalGuard(c, g)
 	r.Check(okSet && okInit && okClean, rule, "G.ast.optimizer:reference-bookkeeping", "", "ast/ast_optimize.go", "uses/used-by recorded for every reference; a removed rule is deleted from exactly its entries",
-		fmt.Sprintf("set-inserts=%t both-directions-recorded=%t %s cleanup=%v: rules still referenced can be removed (or unused ones kept), and a rule whose references are not all recorded passes for a leaf and is inlined although it still references rules (without end if it references itself)", okSet, okInit, initWhy, cleanup))
+		fmt.Sprintf("both-directions-recorded=%t %s cleanup-exact=%t %s: rules still referenced can be removed (or unused ones kept), and a rule whose references are not all recorded passes for a leaf and is inlined although it still references rules (without end if it references itself)", okInit, initWhy, okClean, cleanDetail))
+}
+
+// elementwiseCloners: the functions of package ast that return, for a list of expressions, a new list holding
+// cloneExpr of every element (decided on their normalised paths: a loop over the parameter whose body stores
+// cloneExpr(param[i]) into the returned list, unconditionally).
+func (c *Ctx) elementwiseCloners() map[string]bool {
+	out := map[string]bool{}
+	g := c.G()
+	if g == nil {
+		return out
+	}
+	nc := c.astNorm()
+	for _, fd := range load.AllFuncDecls(g.Pkg("ast")) {
+		if fd.Recv != nil || fd.Body == nil || fd.Type.Params == nil || len(fd.Type.Params.List) != 1 || len(fd.Type.Params.List[0].Names) != 1 || fd.Name.Name == "cloneExpr" {
+			continue
+		}
+		prm := fd.Type.Params.List[0].Names[0].Name
+		paths := nc.normPaths(fd)
+		ok := len(paths) > 0
+		for _, p := range paths {
+			ret := lastReturn(p)
+			lo, hi := loopSpan(p, "range "+prm)
+			if lo < 0 || ret == "" {
+				ok = false
+				continue
+			}
+			stored := false
+			for i := lo + 1; i < hi && i < len(p); i++ {
+				switch p[i].Kind {
+				case "set":
+					if p[i].Text == ret+"=append("+ret+",cloneExpr("+prm+"[#1]))" || p[i].Text == ret+"[#1]=cloneExpr("+prm+"[#1])" {
+						stored = true
+					}
+				case "+", "branch", "return":
+					if !stored {
+						ok = false
+					}
+				}
+			}
+			if !stored {
+				ok = false
+			}
+		}
+		if ok {
+			out[fd.Name.Name] = true
+		}
+	}
+	return out
 }
